@@ -46,6 +46,35 @@ CORPUS = [
 ]
 
 
+def saturation_races(thorough):
+    """map_async(parallelism=p) saturated by p+2 un-awaited emissions (one insert job is waiting for a slot), then the completion that
+    frees a slot and a further emission 0..k loop iterations later: the newcomer must queue behind the waiting job."""
+    out = []
+    for p in (1, 2, 3):
+        for sink in ("sync", "async"):
+            for n in range(0, 7 if thorough else 4):
+                for extra in ((1, 2) if thorough else (1,)):
+                    nodes = [{"kind": "source", "ups": []}, {"kind": "map_async", "f": ["inc"], "parallelism": p, "ups": [0]},
+                             {"kind": "sink", "mode": sink, "f": ["id"], "ups": [1]}]
+
+                    def em(v):
+                        return {"op": "emit", "node": 0, "val": v, "md": [{"tag": v, "ref": v}]}
+                    script = [em(v) for v in range(1, p + 3)]
+                    if sink == "async":
+                        script.append({"op": "jobdone", "job": 0})
+                        first = {"op": "sinkdone", "tok": 0}
+                    else:
+                        first = {"op": "jobdone", "job": 0}
+                    late = []
+                    for j in range(extra):
+                        if n:
+                            late.append({"op": "turns", "n": n})
+                        late.append(em(p + 3 + j))
+                    script.append({"op": "multi", "ops": [first] + late})
+                    out.append((nodes, script))
+    return out
+
+
 def corr_modules():
     mods = []
     for name in ("corr_asyncbuffer", "corr_asyncbufferfine", "corr_asyncwindows", "corr_asynczip"):
@@ -76,6 +105,12 @@ def run(ctx):
     A.sweep(ctx, n, KINDS, ["lossless"], SIGS, corpus=CORPUS, p_zip=0.25)
     # completions racing emissions: a completion and one or two emissions in ONE loop callback (no settling in between)
     A.sweep(ctx, n // 3, KINDS, ["lossless"], SIGS, p_zip=0.1, opts={"p_multi": 0.3})
+    # ... and emissions placed a chosen number of loop iterations (1-9) after a completion, producers not awaiting
+    A.sweep(ctx, n // 3, KINDS, ["lossless"], SIGS, p_zip=0.1, opts={"p_multi": 0.45, "p_turns": 0.8})
+    for i, (nodes, script) in enumerate(saturation_races(ctx.thorough())):
+        case, obs = ac.run_adaptive(nodes, ctx.rng, len(script), opts={"script": script}, flavour=("future", "coro", "tornado")[i % 3])
+        ac.evaluate(ctx, case, obs, ["lossless"], SIGS)
+        ctx.count("directed:map_async-saturation-race")
     for m in corr_modules():
         m.run(ctx, "C02", 40 if not ctx.thorough() else 1500)
     ctx.coverage["rule"] = ("random pipelines source -> sync* -> A -> sync* [-> A'] -> sink(s), or two sources joined by zip(maxsize), A in "
